@@ -16,30 +16,40 @@ Lemma take_key_cons c r :
   take_key (String c r) = if is_key_char c then (String c (fst (take_key r)), snd (take_key r)) else (EmptyString, String c r).
 Proof. cbn [take_key]. destruct (is_key_char c); [|reflexivity]. now destruct (take_key r). Qed.
 
-Lemma key_split_key l k v : key_split l = Some (k, v) -> k = fst (take_key l).
+Lemma quote_line_facts c r : is_quote c = true ->
+  is_cont (String c r) = false /\ prefix "{" (String c r) = false /\ String.eqb (String c r) docstart = false.
 Proof.
-  unfold key_split. destruct (take_key l) as [k0 r0]. cbn [fst].
-  destruct r0 as [|c r1]; [discriminate|]. destruct (Ascii.eqb c ":"); [|discriminate].
+  destruct c as [[|] [|] [|] [|] [|] [|] [|] [|]]; vm_compute; intro H; try discriminate H; repeat split; reflexivity.
+Qed.
+
+Lemma after_key_key k r k' v : after_key k r = Some (k', v) -> k' = k.
+Proof.
+  unfold after_key. destruct r as [|c r1]; [discriminate|]. destruct (Ascii.eqb c ":"); [|discriminate].
   destruct r1 as [|d w]; [now intros [= <- _]|]. destruct (Ascii.eqb d " "); [|discriminate]. now intros [= <- _].
 Qed.
 
 Lemma parse_entry_line l b e : parse_entry (l, b) = Some e ->
   toplevel l = true /\ prefix "{" l = false /\ String.eqb l docstart = false.
 Proof.
-  unfold parse_entry. cbn [fst snd]. destruct (key_split l) as [[k v]|] eqn:Hk; [|discriminate].
-  destruct (key_ok k && rest_ok v) eqn:Hok; [|discriminate]. intros _.
-  apply andb_true_iff in Hok as [Hok _]. apply key_split_key in Hk. subst k.
-  destruct l as [|c r]; [discriminate Hok|].
-  rewrite take_key_cons in Hok. destruct (is_key_char c); [|discriminate Hok].
-  cbn [fst key_ok] in Hok. apply andb_true_iff in Hok as [Hl _].
-  unfold toplevel. destruct (letter_line_facts c r Hl) as (-> & -> & ->). now repeat split.
+  unfold parse_entry. cbn [fst snd]. destruct (key_split l) as [[[k v] qd]|] eqn:Hk; [|discriminate].
+  destruct (key_admissible k qd && rest_ok v) eqn:Hok; [|discriminate]. intros _.
+  apply andb_true_iff in Hok as [Hok _].
+  destruct l as [|c r]; [discriminate Hk|]. unfold key_split in Hk.
+  destruct (is_quote c) eqn:Hq.
+  - unfold toplevel. destruct (quote_line_facts c r Hq) as (-> & -> & ->). now repeat split.
+  - destruct (take_key (String c r)) as [k0 r1] eqn:Ht.
+    destruct (after_key k0 r1) as [[k' v']|] eqn:Ha; [|discriminate Hk]. cbn [option_map] in Hk.
+    injection Hk as -> -> <-. apply after_key_key in Ha. subst k.
+    rewrite take_key_cons in Ht. destruct (is_key_char c); [|injection Ht as <- _; discriminate Hok].
+    injection Ht as <- _. cbn [key_admissible key_ok] in Hok. apply andb_true_iff in Hok as [Hl _].
+    unfold toplevel. destruct (letter_line_facts c r Hl) as (-> & -> & ->). now repeat split.
 Qed.
 
 Lemma parse_entry_body l b b' k v :
   parse_entry (l, b) = Some (k, v, b) -> parse_entry (l, b') = Some (k, v, b').
 Proof.
-  unfold parse_entry. cbn [fst snd]. destruct (key_split l) as [[k0 v0]|]; [|discriminate].
-  destruct (key_ok k0 && rest_ok v0); [|discriminate]. now intros [= -> ->].
+  unfold parse_entry. cbn [fst snd]. destruct (key_split l) as [[[k0 v0] qd]|]; [|discriminate].
+  destruct (key_admissible k0 qd && rest_ok v0); [|discriminate]. now intros [= -> ->].
 Qed.
 
 Lemma parse_entries_app a b :
@@ -61,11 +71,36 @@ Lemma strip_docstart_keep l o G : String.eqb l docstart = false -> strip_docstar
 Proof. intro H. cbn [strip_docstart]. destruct o; [now rewrite H|reflexivity]. Qed.
 
 (* ------------------------------------------------------------------ analyse: introduction and inversion *)
+Lemma toplevel_indent0 l : toplevel l = true -> (0 <? indent_of l) = false.
+Proof.
+  destruct l as [|c r]; [reflexivity|]. cbn [indent_of]. destruct (Ascii.eqb_spec c " ") as [->|]; [discriminate|reflexivity].
+Qed.
+
+Lemma group_no_orphans_head l r gs : group (l :: r) = (gs, []) -> toplevel l = true.
+Proof. cbn [group]. destruct (group r) as [g o]. destruct (toplevel l); [reflexivity|discriminate]. Qed.
+
+Lemma docstart_facts : toplevel docstart = true /\ forall b, parse_entry (docstart, b) = None.
+Proof. split; reflexivity. Qed.
+
+(* a document that parses as a column-0 block mapping is not an indented one *)
+Lemma indented_none S gs es : group S = (gs, []) -> parse_entries (strip_docstart gs) = Some es -> indented S = None.
+Proof.
+  intros Hg Hp. destruct S as [|l r]; [reflexivity|]. unfold indented.
+  destruct (String.eqb_spec l docstart) as [->|Hne].
+  - destruct r as [|l2 r2]; [reflexivity|].
+    assert (Ht : toplevel l2 = true).
+    { cbn [group] in Hg. destruct (group r2) as [g o]. destruct (toplevel l2) eqn:Ht; [reflexivity|].
+      destruct docstart_facts as [Hd Hpe]. rewrite Hd in Hg. injection Hg as <-.
+      cbn [strip_docstart] in Hp. cbn [parse_entries] in Hp. now rewrite Hpe in Hp. }
+    now rewrite (toplevel_indent0 _ Ht).
+  - now rewrite (toplevel_indent0 _ (group_no_orphans_head _ _ _ Hg)).
+Qed.
+
 Lemma analyse_block_intro E gs es :
   forallb line_clean E = true -> group (sig_lines E) = (gs, []) ->
   parse_entries (strip_docstart gs) = Some es -> analyse E = RBlock es.
 Proof.
-  intros Hc Hg Hp. unfold analyse. rewrite Hc, Hg. cbn [negb].
+  intros Hc Hg Hp. unfold analyse. rewrite Hc, (indented_none _ _ _ Hg Hp). cbn [negb]. unfold analyse_sig. rewrite Hg.
   destruct (strip_docstart gs) as [|[l b] r] eqn:Hs.
   - cbn [parse_entries] in Hp. now injection Hp as <-.
   - assert (Hl : prefix "{" l = false).
@@ -78,6 +113,8 @@ Lemma analyse_block_inv E es : analyse E = RBlock es ->
   forallb line_clean E = true /\ exists gs, group (sig_lines E) = (gs, []) /\ parse_entries (strip_docstart gs) = Some es.
 Proof.
   unfold analyse. destruct (forallb line_clean E); cbn [negb]; [|discriminate].
+  destruct (indented (sig_lines E)) as [D|]; [destruct (analyse_sig D); discriminate|].
+  unfold analyse_sig.
   destruct (group (sig_lines E)) as [gs [|o orph]]; [|discriminate].
   intro H. split; [reflexivity|]. exists gs. split; [reflexivity|].
   destruct (strip_docstart gs) as [|[l b] r].
